@@ -384,7 +384,22 @@ pub fn run(o: &Opts, stats: &mut Stats) -> Option<usize> {
             expanded.push(Sharded { fam: c.fam, first });
         }
     }
-    run_configs(o, stats, &expanded, |c, _| First { inner: C10::new(&Cfg { fam: c.fam }), first: c.first, step_no: 0 }, &move |_c: &Sharded| if thorough { vec![Pass { depth: 4, max_dev: 4 }] } else { vec![Pass { depth: 3, max_dev: 3 }] })
+    // second part (c10f.rs): field sensitivity; its configurations are numbered after the first part's
+    if let Some(path) = &o.replay {
+        let v: serde_json::Value = serde_json::from_str(&std::fs::read_to_string(path).expect("replay file")).expect("json");
+        if v["config"].get("pair").is_some() {
+            return super::c10f::run(o, stats);
+        }
+    }
+    let n_main = expanded.len();
+    if o.replay.is_some() || o.start_cfg < n_main {
+        let r = run_configs(o, stats, &expanded, |c, _| First { inner: C10::new(&Cfg { fam: c.fam }), first: c.first, step_no: 0 }, &move |_c: &Sharded| if thorough { vec![Pass { depth: 4, max_dev: 4 }] } else { vec![Pass { depth: 3, max_dev: 3 }] });
+        if r.is_some() || o.replay.is_some() {
+            return r;
+        }
+    }
+    let o2 = Opts { start_cfg: o.start_cfg.saturating_sub(n_main), ..o.clone() };
+    super::c10f::run(&o2, stats).map(|r| r + n_main)
 }
 
 /// Work unit = (family, index of the first operation): lets 16 shards share 5 families.
